@@ -791,6 +791,8 @@ class FieldValueMultiple(FieldValueBase):
             if issubclass(validator.type, FieldValueComponentOption):
                 if value is False:
                     continue
+            if value is None and isinstance(field_value, FieldValueComponentParsableOptional):
+                continue
 
             components.append(getattr(self, name))
 
